@@ -175,8 +175,27 @@ def value_dispatch(ctx, obs, rule='EXH-value'):
     obs.check(ok, rule, q2, 'lists are stored as an array or, failing that, element by element',
               '_write_list has a path that stores nothing', '', where(prog, f2, f2.node))
     # recursion for nested dicts
-    rec = any(isinstance(c, ast.Call) and _leaf(c.func) == '_write_to_group' for c in ast.walk(f.node))
-    obs.check(rec, rule, q, 'nested dicts are written recursively', 'no recursive call', '', where(prog, f, f.node))
+    con = 'nested dicts are written recursively'
+    mod_tree = prog.module_of(f).tree
+    module_callables = {n.name for n in ast.walk(mod_tree) if isinstance(n, (ast.FunctionDef, ast.ClassDef))}
+    dict_arms = [a for a in ast.walk(f.node) if isinstance(a, ast.If) and any(
+        isinstance(c, ast.Call) and _leaf(c.func) == 'isinstance' and len(c.args) == 2 and any(
+            isinstance(x, ast.Name) and x.id == 'dict' for x in ast.walk(c.args[1])) for c in ast.walk(a.test))]
+    if not dict_arms:
+        obs.unk(rule, q, con, 'no arm for dict values recognised', where(prog, f, f.node))
+    for a in dict_arms[:1]:
+        tested = {x.id for c in ast.walk(a.test) if isinstance(c, ast.Call) and _leaf(c.func) == 'isinstance' and c.args
+                  for x in ast.walk(c.args[0]) if isinstance(x, ast.Name)}
+        calls = [c for st in a.body for c in ast.walk(st) if isinstance(c, ast.Call)
+                 and any(isinstance(x, ast.Name) and x.id in tested for arg in list(c.args) + [k.value for k in c.keywords] for x in ast.walk(arg))]
+        own = [c for c in calls if _leaf(c.func) in module_callables or _leaf(c.func).startswith('__X')]
+        if own:
+            obs.ok(rule, q, con, f'`{norm(own[0])[:60]}`', where(prog, f, own[0]))
+        elif calls:
+            obs.unk(rule, q, con, f'the dict value is handed to `{norm(calls[0])[:60]}`', where(prog, f, calls[0]))
+        else:
+            obs.bad(rule, q, con, 'the arm for dict values contains no call that receives the nested dict: no recursive call',
+                    where(prog, f, a))
     q3 = 'io.hdf5._read_group'
     f3 = prog.func(q3)
     rec = any(isinstance(c, ast.Call) and _leaf(c.func) == '_read_group' for c in ast.walk(f3.node))
